@@ -2457,7 +2457,7 @@ func init() {
 					"every executed tree (enum, trees) is also run twice more on its parsed tree (vm.RunContext, fresh equal environments): the result of vm.Execute each time, and the tree dumps as after the parse. " +
 					"phase literals also: float numerals of 801..3000 characters (digits and an exponent, dot near the front / in the middle / behind more than 800 digits, 0.000..ddd, zeros in front, no exponent; digit patterns 1000.., 999.., few digits + deciding last digit, 2^53+1 + tail; 3 per case and a fixed list) against the exact value digits x 10^k built with big.Int from the drawn parts and rounded once by big.Rat.Float64: magnitudes 1e-300..1e305 parse to precisely that float64 (every fourth negated), from 1e311 on and integer numerals of more than 800 digits are rejected. " +
 					"phase reeval (a literal denotes what is written EVERY time it is evaluated, the tree keeps spelling its source): per case 40 (thorough 60) programs of 1..3 units in one of " + strconv.Itoa(len(c03RVehicles)-1) + " vehicles that evaluate the same nodes again (straight line, C-style/for-in/condition loops, function called 2..4 times, function value in a loop, closures from one maker, recursion, try/switch/if in a loop, nested loops, module function). A unit draws a literal (integer dec/hex/bin/leading zeros, float, quoted/raw string, true/false/nil; numbers also with the lexer's minus), puts it behind one of " + strconv.Itoa(len(c03RCarriers)) + " carriers that hand its value on (bare, (..), ((..)), both arms of ?:, both sides of ??, list element, map member/key, id() result, func-literal result, *&), takes hold of it in one of " + strconv.Itoa(len(c03RAccess)-2) + " ways (address of the carrier: kept, copied, in a list, in a map, returned by a function that is called again, passed through a host function, pointer to the pointer, used inside a closure, two pointers swapped; value bound by assignment, var, multi-assignment, parameter, list element, map value, function result, address of a call result; address of a drawn expression tree), hands the value to the recorder see(tag, v), and then tries to change it (store, two stores, op-assign, ++/--, host function storing through the pointer by reflection, host functions with *int64/*float64/*string/*bool/*interface{} parameters, script function, closure). Plus 3 (4) tables of 1..300 (1500) literals (sizes around 32/64/100/128/256 favoured): one list, rows, one see() statement each, or a list of the addresses of all literals read and overwritten in two passes; plus a canary of true/false/nil/0/1/2.5/\"s\" and x++/x-- read through a fresh parse at the end of every case. Each program is parsed once and the tree run 2..3 times (vm.RunContext) in fresh equal environments, then its source is run by vm.Execute; the previous program's tree is dumped and run once more after each program. Judged: (value) every record of a tracked literal holds exactly the written Go value (type and bits), table literals parse and evaluate to the written values in order; (tree) the dump with positions and all Literal values bit for bit is after every run what it was after the parse, also after another source was parsed and run; (rerun) later runs of the tree and the fresh parse give the outcome and records of the first run. " +
-					"non-trivial = tree with >=2 operators, or any literal check, or any reeval program; distinct = distinct (position, minimal source) / (literal source) / (program source).",
+					"non-trivial = tree with >=2 operators, or any literal check, or any reeval program; distinct = distinct (position, minimal source) / (literal source) / (program source)." + c03R8Rule,
 				Assumptions: []string{
 					"strconv.FormatFloat(-1) emits digits that denote the float exactly; Go constant arithmetic is the reference for fixed float spellings",
 					"unspecified, kept out or accepted both ways: `<-`, ++/--/op=, escapes before letters/digits (\\x41), `1.`, `.5`, float underflow (1e-400), CR in raw strings, numeric literal directly before `.name` or `...` (`5.x`, `f(1...)`: where the number token ends is not fixed by the statement), top-level `in`/map literal directly after `for`, -2^63 spelled with a minus sign (MinInt64 or rejection)",
@@ -2469,16 +2469,20 @@ func init() {
 					"phase reeval: 'a literal denotes exactly what is written' is read as a statement about the literal node, hence about each of its evaluations and about the tree after any run; that *&x is x, that `p = &e; *p` is the value of e, and that a loop/function body is evaluated once per pass/call are taken from the language. The statements around the literals (for, func, try, module, op-assign, ++) are not C03's subject: a generated program the parser rejects is inconclusive, run errors and panics are not judged (C01), a run without error that records a literal another number of times than the program evaluates it is inconclusive; whether a host function with a typed pointer parameter accepts the script's pointer is not judged (call wrapped in try). -2^63, NaN/Inf and float underflow are not drawn",
 					"long numerals: big.Rat.Float64 rounds the exact value to nearest-even (documented); the band between MaxFloat64 and 1e310 and everything below 1e-300 is not drawn. c03PendingFix_LongNegZero is false, its workload is on: `-0.000..0` beyond 800 characters is -0 like its shorter spellings (was +0; GENUINE.md #1, repaired in /repo as 6ccc49e)",
 					"the statement names decimal, hexadecimal and binary integers and no octal form: a literal of decimal digits only is read as decimal whatever its first digit (leading zeros carry no meaning, as in Go's 010.5 and strconv base 10)",
+					c03R8Assumptions[0], c03R8Assumptions[1], c03R8Assumptions[2],
 				},
-				Phases: []fw.Phase{
+				Phases: append([]fw.Phase{
 					{Name: "enum", Cases: enumCases, Chunk: 30, Exhaust: true, TimeoutS: 900},
 					{Name: "literals", Cases: lits, Chunk: 25, TimeoutS: 900},
 					{Name: "trees", Cases: trees, Chunk: 25, TimeoutS: 1800},
 					{Name: "reeval", Cases: reeval, Chunk: 20, TimeoutS: 900},
-				},
+				}, c03R8Phases(tier)...), // history, sizes, hot: see c03_r8.go
 			}
 		},
 		Run: func(c *wk.Case) {
+			if c03R8Run(c) {
+				return
+			}
 			switch c.Phase {
 			case "enum":
 				c03EnumCase(c)
